@@ -49,7 +49,9 @@ inline long long RowLegalizer::getDisplacement(int width, int targetPos,
     cumWidth_.push_back(width + usedSpace());
     constrainingPos_.push_back(finalAbsPos);
     if (slope > 0) {  // Remaining capacity of an encountered bound
-      bounds.push(Bound(slope, cur_pos));
+      // When the cell is stopped by the end of the row it ends up before the
+      // bound: everything is constrained from its final position
+      bounds.push(Bound(slope, std::min(cur_pos, finalAbsPos)));
     }
     // The new bound, depending on whether it was passed or not
     if (targetAbsPos > begin_) {
